@@ -117,6 +117,10 @@ func template(k int) shape {
 		s.body = []*nd{gr("146", lf("55", kStr), lf("1711", kStr), gr("711", lf("311", kStr), lf("11", kStr))), lf("58", kStr)}
 	case 21: // group count tag that is a suffix of a preceding plain tag, group absent or present
 		s.body = []*nd{lf("2146", kStr), gr("146", lf("55", kStr)), lf("9146", kStr)}
+	case 22: // every value type behind 1-digit tags, also inside a group entry (arbitrary-input checks)
+		s.bs = "F"
+		s.hdr = []*nd{lf("4", kBool)}
+		s.body = []*nd{lf("5", kUint), lf("6", kFloat), lf("7", kTime), lf("2", kRaw), gr("3", lf("1", kBool), lf("0", kInt))}
 	}
 	return s
 }
